@@ -15,7 +15,7 @@ def frame(call, rr, payload, ver=None):
 def reg_result(code, tmo=10, rr=1):
     return frame(K()['SRV_REGISTER_RESULT'], rr, struct.pack('<iBBB', code, tmo & 255, K()['DEVICE_PROTO_VERSION'], 1))
 def ping_result(rr=1): return frame(K()['SRV_PING_RESULT'], rr, bytes(K()['SZ_PING_RESULT']))
-def sat_result(tmo, rr=1): return frame(K()['SRV_SET_ACTIVITY_TIMEOUT_RESULT'], rr, bytes([tmo & 255, 5, 240]))
+def sat_result(tmo, rr=1, mn=5, mx=240): return frame(K()['SRV_SET_ACTIVITY_TIMEOUT_RESULT'], rr, bytes([tmo & 255, mn & 255, mx & 255]))
 def chstate_req(rr=1): return frame(K()['SRV_GET_CHANNEL_STATE'], rr, bytes(K()['SZ_CHANNEL_STATE_REQUEST']))
 def version_error(rr=1): return frame(K()['SRV_VERSIONERROR'], rr, bytes(K()['SZ_VERSIONERROR']))
 
